@@ -132,10 +132,26 @@ func (w *KafkaWriter) WriteEvent(e interface{}) {
 	}
 }
 
+func (w *KafkaWriter) writeBatch(messagesToSend []kafka.Message) {
+	metric := w.newMetric(KAFKAWRITER)
+	metric.AddValue("messages_sent", len(messagesToSend))
+	metric.AddValue("messages_failed", 0)
+
+	w.writeFunction(messagesToSend, &metric)
+
+	monitoring.Send(metric)
+}
+
 func (w *KafkaWriter) writingLoop() {
 	for {
 		select {
 		case <-w.batchingLoopDoneCh:
+			// The batching loop is gone, nothing is pushed any more: flush what it left
+			// in the buffer before reporting this worker as done (PopMultiple cannot block
+			// on a non-empty buffer, we are its only consumer).
+			for w.messageBuffer.Length() > 0 {
+				w.writeBatch(w.messageBuffer.PopMultiple(100))
+			}
 			w.runningWorkers.Done()
 			return
 		default:
@@ -144,13 +160,7 @@ func (w *KafkaWriter) writingLoop() {
 				continue
 			}
 
-			metric := w.newMetric(KAFKAWRITER)
-			metric.AddValue("messages_sent", len(messagesToSend))
-			metric.AddValue("messages_failed", 0)
-
-			w.writeFunction(messagesToSend, &metric)
-
-			monitoring.Send(metric)
+			w.writeBatch(messagesToSend)
 		}
 	}
 }
